@@ -10,8 +10,8 @@ open Dashu.Props.C18
 #print axioms next_up_down_adjacent
 #print axioms nearest_closer
 #print axioms pick_simplest_optimal
-#print axioms rounding_set_is_preimage
-#print axioms rounding_set_is_interval
-#print axioms simplest_from_float_special
-#print axioms simplest_from_f32_exact
-#print axioms simplest_from_f64_exact
+#print axioms simplest_from_float_interval
+#print axioms mode_is_window
+#print axioms fbig_rounding_set_exact
+#print axioms fbig_model_set_is_rounding_set
+#print axioms simplest_from_fbig_exact
